@@ -3,6 +3,7 @@ package main
 // Verification of one function against its contract; discharge of the obligations.
 
 import (
+	"strconv"
 	"fmt"
 	"go/types"
 	"os"
@@ -80,6 +81,16 @@ func (w *world) verifyFunc(con *Contract, fn *ssa.Function, mode string, variant
 	fr := &frame{fn: fn, regs: map[ssa.Value]val{}, con: con, top: true}
 	if variant != nil {
 		x.setupConformance(variant)
+		if con.PerVariant == "self" {
+			if sp := w.ssaPkgs[con.PkgPath]; sp != nil {
+				if f := sp.Func("New" + variant.Obj().Name()); f != nil {
+					x.params["variantNew"] = val{fn: f}
+				}
+				if f := sp.Func("CastPointerTo" + variant.Obj().Name()); f != nil {
+					x.params["variantCast"] = val{fn: f}
+				}
+			}
+		}
 	}
 	var modelVars []string
 	for i, p := range fn.Params {
@@ -573,6 +584,103 @@ type runOpts struct {
 	onlyLabel string
 }
 
+var scriptSem = make(chan struct{}, 20)
+
+// declSlicer keeps, for one obligation, only the declarations in the cone of influence of its formulas: a symbol is
+// declared when it is used; a background assertion (allocation facts, distinctness, definitions) is kept when it
+// mentions a symbol already in the cone, and then contributes its own symbols. Dropping an assertion only weakens the
+// hypotheses, so a discharged obligation stays discharged with the full set; the scripts become small and fast.
+type declSlicer struct {
+	decls  []string
+	name   []string   // declared / defined symbol ("" for assertions)
+	syms   [][]string // declared symbols mentioned by the declaration (other than its own name)
+	isName map[string]bool
+}
+
+func smtTokens(s string, f func(string)) {
+	start := -1
+	for i := 0; i <= len(s); i++ {
+		if i == len(s) || s[i] == ' ' || s[i] == '(' || s[i] == ')' || s[i] == '\n' || s[i] == '\t' {
+			if start >= 0 {
+				f(s[start:i])
+				start = -1
+			}
+			continue
+		}
+		if start < 0 {
+			start = i
+		}
+	}
+}
+
+func newDeclSlicer(decls []string) *declSlicer {
+	sl := &declSlicer{decls: decls, name: make([]string, len(decls)), syms: make([][]string, len(decls)), isName: map[string]bool{}}
+	for i, d := range decls {
+		if strings.HasPrefix(d, "(declare-fun ") || strings.HasPrefix(d, "(declare-sort ") || strings.HasPrefix(d, "(define-fun ") || strings.HasPrefix(d, "(declare-const ") {
+			f := strings.Fields(d)
+			if len(f) > 1 {
+				sl.name[i] = strings.Trim(f[1], "()")
+				sl.isName[sl.name[i]] = true
+			}
+		}
+	}
+	for i, d := range decls {
+		seen := map[string]bool{}
+		smtTokens(d, func(t string) {
+			if sl.isName[t] && t != sl.name[i] && !seen[t] {
+				seen[t] = true
+				sl.syms[i] = append(sl.syms[i], t)
+			}
+		})
+	}
+	return sl
+}
+
+func (sl *declSlicer) slice(roots []string) []string {
+	need := map[string]bool{}
+	for _, r := range roots {
+		smtTokens(r, func(t string) {
+			if sl.isName[t] {
+				need[t] = true
+			}
+		})
+	}
+	in := make([]bool, len(sl.decls))
+	for changed := true; changed; {
+		changed = false
+		for i := range sl.decls {
+			if in[i] {
+				continue
+			}
+			take := false
+			if sl.name[i] != "" {
+				take = need[sl.name[i]]
+			} else {
+				for _, t := range sl.syms[i] {
+					if need[t] {
+						take = true
+						break
+					}
+				}
+			}
+			if take {
+				in[i] = true
+				changed = true
+				for _, t := range sl.syms[i] {
+					need[t] = true
+				}
+			}
+		}
+	}
+	var out []string
+	for i, d := range sl.decls {
+		if in[i] {
+			out = append(out, d)
+		}
+	}
+	return out
+}
+
 // discharge sends every obligation to the solvers.
 func (w *world) discharge(x *ctx, con *Contract, mode, variant string, modelVars []string, opts *runOpts) []*oblResult {
 	// unique names: ordinal per identical name
@@ -581,6 +689,7 @@ func (w *world) discharge(x *ctx, con *Contract, mode, variant string, modelVars
 		count[o.Name]++
 	}
 	ord := map[string]int{}
+	sl := newDeclSlicer(x.decls)
 	results := make([]*oblResult, len(x.obls))
 	var wg sync.WaitGroup
 	for i, o := range x.obls {
@@ -594,25 +703,39 @@ func (w *world) discharge(x *ctx, con *Contract, mode, variant string, modelVars
 		}
 		r := &oblResult{Name: name, Func: con.Target, Mode: mode, Kind: o.Kind, Tag: o.Tag, Sig: o.Sig, Note: o.Note}
 		results[i] = r
+		if n, _ := strconv.Atoi(os.Getenv("GOVC_DEBUG_FIRST")); n > 0 && i >= n {
+			r.Status = "undecided" // development aid: only the first n obligations are sent to the solvers
+			r.SolverO = "skipped (GOVC_DEBUG_FIRST)"
+			continue
+		}
 		if o.Goal == "true" {
 			r.Status, r.Trivial = "discharged", true
 			r.Solver = "syntactic"
 			continue
 		}
-		var b strings.Builder
-		for _, d := range x.decls {
-			b.WriteString(d)
-			b.WriteByte('\n')
-		}
-		for _, p := range o.Pc {
-			b.WriteString("(assert " + p + ")\n")
-		}
-		b.WriteString("(assert (not " + o.Goal + "))\n")
-		script := b.String()
-		r.Script = script
 		wg.Add(1)
-		go func(o *obligation, r *oblResult, script string) {
+		go func(o *obligation, r *oblResult) {
 			defer wg.Done()
+			// the script is built only when a slot is free and kept only for obligations that do not discharge
+			// (thousands of paths times megabytes of declarations would not fit into memory otherwise)
+			scriptSem <- struct{}{}
+			defer func() { <-scriptSem }()
+			var b strings.Builder
+			roots := append(append([]string{o.Goal}, o.Pc...), modelVars...)
+			for _, d := range sl.slice(roots) {
+				b.WriteString(d)
+				b.WriteByte('\n')
+			}
+			for _, p := range o.Pc {
+				b.WriteString("(assert " + p + ")\n")
+			}
+			b.WriteString("(assert (not " + o.Goal + "))\n")
+			script := b.String()
+			defer func() {
+				if r.Status == "failed" || r.Status == "undecided" || r.Status == "vacuous" {
+					r.Script = script
+				}
+			}()
 			mv := modelVars
 			if o.Kind == "cover" || o.Kind == "path-cover" {
 				mv = nil
@@ -675,7 +798,7 @@ func (w *world) discharge(x *ctx, con *Contract, mode, variant string, modelVars
 			if opts.dumpDir != "" && (os.Getenv("GOVC_DUMP_ALL") != "" || r.Status == "failed" || r.Status == "undecided" || r.Status == "vacuous") {
 				dumpScript(opts.dumpDir, variant+con.Target+"_"+mode+"_"+r.Name, "(set-logic ALL)\n"+script+"(check-sat)\n(get-model)\n")
 			}
-		}(o, r, script)
+		}(o, r)
 	}
 	wg.Wait()
 	return results
